@@ -595,6 +595,11 @@ func Run(repo, outDir string) ([]string, error) {
 	if err := writeIfChanged(filepath.Join(outDir, "CursorGen.v"), cg); err != nil {
 		return nil, err
 	}
+	rl, rlProblems := rangeLoopGen(pkgs)
+	problems = append(problems, rlProblems...)
+	if err := writeIfChanged(filepath.Join(outDir, "RangeLoopGen.v"), rl); err != nil {
+		return nil, err
+	}
 	fp, fpProblems := footprint(pkgs)
 	problems = append(problems, fpProblems...)
 	if err := writeIfChanged(filepath.Join(outDir, "FootprintGen.v"), fp); err != nil {
